@@ -247,6 +247,55 @@ def run_big(c):
     return out
 
 
+def _gbrecs(it):
+    return [[None if a is None else str(a), None if b is None else str(b)] for a, b in it]
+
+
+def run_gb(c):
+    """GenBank readers on one text: which 0 MinimalGenbankParser(lines) | 1 minimal_parser(bytes) |
+    3 rich_parser(path, moltype) | 4 load_unaligned_seqs(path) (registry) ; gbstream: MinimalGenbankParser over
+    iter_splitlines(path, chunk_size=n) of a (compressed) file"""
+    import cogent3
+    from cogent3.parse.genbank import MinimalGenbankParser, minimal_parser, rich_parser
+    from cogent3.util.io import iter_splitlines
+
+    text, which = c["text"], c.get("which", 0)
+    d = _dir()
+    suffix = c.get("suffix", "")
+    path = os.path.join(d, "x.gb" + suffix)
+    csize = _write_text(path, text, suffix)
+
+    def obs(fn):
+        try:
+            return fn()
+        except Exception as e:  # noqa: BLE001
+            return {"exc": exc_code(e), "msg": f"{type(e).__name__}: {e}"[:120]}
+
+    if c["kind"] == "gbstream":
+        n = c["n"]
+        if not isinstance(n, int):
+            n = max(1, {"disk": csize, "len": len(text), "mid": (csize + len(text)) // 2}[n[0]] + (n[1] if len(n) > 1 else 0))
+        return {"result": obs(lambda: _gbrecs((r.get("locus"), r.get("sequence"))
+                                                for r in MinimalGenbankParser(iter_splitlines(path, chunk_size=n)))),
+                "csize": csize, "n_used": n}
+    if which == 0:
+        res = obs(lambda: _gbrecs((r.get("locus"), r.get("sequence")) for r in MinimalGenbankParser(text.splitlines())))
+    elif which == 1:
+        res = obs(lambda: _gbrecs((r.get("locus"), r.get("sequence")) for r in minimal_parser(text.encode("utf8"))))
+        res2 = obs(lambda: _gbrecs((r.get("locus"), r.get("sequence")) for r in minimal_parser(path)))
+        if res2 != res and not (isinstance(res, dict) and isinstance(res2, dict) and res["exc"] == res2["exc"]):
+            return {"result": res, "routes_differ": ["path"], "routes": {"path": res2}}
+    elif which == 3:
+        res = obs(lambda: _gbrecs((n, s) for n, s in rich_parser(path, moltype=c.get("moltype", "dna"))))
+    else:
+        def ld():
+            coll = cogent3.load_unaligned_seqs(path, moltype=c.get("moltype", "dna"))
+            dd = coll.to_dict()
+            return [[str(n), str(dd[n])] for n in coll.names]
+        res = obs(ld)
+    return {"result": res, "csize": csize}
+
+
 def _run_case(c):
     k = c["kind"]
     if k == "round":
@@ -261,6 +310,13 @@ def _run_case(c):
         return run_stream(c)
     if k == "big":
         return run_big(c)
+    if k in ("gb", "gbstream"):
+        return run_gb(c)
+    if k == "registry":
+        from cogent3.format.alignment import FORMATTERS
+        from cogent3.parse.sequence import PARSERS, XML_PARSERS
+
+        return {"parsers": sorted(PARSERS), "xml_parsers": sorted(XML_PARSERS), "formatters": sorted(FORMATTERS)}
     raise ValueError(k)
 
 
